@@ -290,6 +290,7 @@ func TestVerifC20Sessions(t *testing.T) {
 	t.Cleanup(kit.Flush)
 	t.Cleanup(func() { c20KillLeakedHooks() })
 	limit := kit.EnvInt("C20_SESSION_CASES", 8)
+	c20CalibrateCoreLevel(t) // the records / line format of the log file this test observes through (c20_calibrate_test.go)
 
 	rapid.Check(t, func(t *rapid.T) {
 		if !c20SessFailed && c20SessPassed >= limit {
